@@ -82,11 +82,16 @@ impl<F, const D: usize> CircuitBuilder<F, D> {
     pub uninterp spec fn sat(&self) -> bool;
     /// registered public inputs, in registration order
     pub uninterp spec fn pis(&self) -> Seq<Target>;
+    /// (public-input targets of a child proof, key it is verified against), in verification order (TB-3, prelude/verifier.rs)
+    pub uninterp spec fn verified(&self) -> Seq<(Seq<Target>, VkId)>;
 }
+/// abstract identity of the verifier key a child proof is checked against: baked constants of a given key, or witness wires
+#[derive(PartialEq, Eq)]
+pub enum VkId { Fixed(int), Witness }
 
 /// nothing observable except the constraint set changed
 pub open spec fn bframe<F, const D: usize>(o: &CircuitBuilder<F, D>, n: &CircuitBuilder<F, D>) -> bool {
-    n.pis() == o.pis()
+    n.pis() == o.pis() && n.verified() == o.verified()
 }
 /// new constraint set extends the old one
 pub open spec fn bext<F, const D: usize>(o: &CircuitBuilder<F, D>, n: &CircuitBuilder<F, D>) -> bool {
@@ -248,19 +253,19 @@ impl<F: RichField + Extendable<D>, const D: usize> CircuitBuilder<F, D> {
     { unimplemented!() }
     #[verifier::external_body]
     pub fn add_virtual_public_input(&mut self) -> (r: Target)
-        ensures final(self).pis() == old(self).pis().push(r), final(self).sat() == old(self).sat(),
+        ensures final(self).pis() == old(self).pis().push(r), final(self).sat() == old(self).sat(), final(self).verified() == old(self).verified(),
     { unimplemented!() }
     #[verifier::external_body]
     pub fn add_virtual_hash_public_input(&mut self) -> (r: HashOutTarget)
-        ensures final(self).pis() == old(self).pis() + r.elements@, final(self).sat() == old(self).sat(),
+        ensures final(self).pis() == old(self).pis() + r.elements@, final(self).sat() == old(self).sat(), final(self).verified() == old(self).verified(),
     { unimplemented!() }
     #[verifier::external_body]
     pub fn register_public_input(&mut self, t: Target)
-        ensures final(self).pis() == old(self).pis().push(t), final(self).sat() == old(self).sat(),
+        ensures final(self).pis() == old(self).pis().push(t), final(self).sat() == old(self).sat(), final(self).verified() == old(self).verified(),
     { unimplemented!() }
     #[verifier::external_body]
     pub fn register_public_inputs(&mut self, ts: &[Target])
-        ensures final(self).pis() == old(self).pis() + ts@, final(self).sat() == old(self).sat(),
+        ensures final(self).pis() == old(self).pis() + ts@, final(self).sat() == old(self).sat(), final(self).verified() == old(self).verified(),
     { unimplemented!() }
 }
 
@@ -296,6 +301,14 @@ pub broadcast proof fn lemma_rc_ok(v: int, n: nat)
     let bits = choose|bits: Seq<int>| #[trigger] all_bool(bits) && bits.len() == n && bits_sum_from(bits, 0) % P() == v;
     lemma_range_check_bound(bits, v);
 }
+
+// --- value views distribute over push / concatenation (PROVED)
+pub broadcast proof fn lemma_vals_push(s: Seq<Target>, t: Target)
+    ensures #[trigger] vals(s.push(t)) == vals(s).push(val(t)),
+{ assert(vals(s.push(t)) =~= vals(s).push(val(t))); }
+pub broadcast proof fn lemma_vals_add(s: Seq<Target>, t: Seq<Target>)
+    ensures #[trigger] vals(s + t) == vals(s) + vals(t),
+{ assert(vals(s + t) =~= vals(s) + vals(t)); }
 
 // --- exec helpers the normaliser maps panicking macros onto (N9)
 pub fn vassert(c: bool)
